@@ -130,7 +130,7 @@ CaseOf(pre, post, ns, nt, lm, tm, deleting) ==
        own |-> {q \in 1..(n - 1) : a.k[q] >= 1000}, uown |-> {q \in 1..(Len(b.k) - 1) : b.k[q] >= 1000}, uoOk |-> TRUE,
        newc |-> <<>>, newk |-> <<NewId>>, stmt |-> TRUE, kind |-> "Module", field |-> "body", form |-> "slice", deleting |-> deleting,
        tv |-> [n |-> 2, a |-> <<TvPart(lm), TvPart(tm)>>],
-       elif |-> FALSE, soleGen |-> FALSE, dependent |-> FALSE ]
+       elifPre |-> FALSE, elifPost |-> FALSE, soleGen |-> FALSE, dependent |-> FALSE ]
 
 (* ---- state ------------------------------------------------------------------ *)
 VARIABLES phase, lay, req, post, dmg
